@@ -40,6 +40,9 @@ CSS_CFGS = [
     ('property-scope', {'type': 'stylesheet', 'context': {'name': '@@property'}}),
     ('json', {'type': 'stylesheet', 'options': {'stylesheet.json': True}}),
     ('no-skip', {'type': 'stylesheet', 'options': {'stylesheet.skipUnmatched': False, 'stylesheet.shortHex': False}}),
+    # user snippets of unusual but legal shapes: empty alternatives, a function call and several tokens as first alternative, a raw snippet
+    ('user-snippets', {'type': 'stylesheet', 'snippets': {'p': 'padding:a||b', 'm': 'margin:|1', 'f': 'float:left|', 't': 'transform:rotate(1deg, 2) x|none',
+                                                         'a': 'a {\n${1}\n}', 'e': 'empty-cells'}}),
 ]
 
 
